@@ -124,11 +124,11 @@ package nodes
 //@   ensures flush: result == nil ==> !produceFailed()
 //@   ensures everygroup: result == nil ==> forallK(k, has(aggregates, k) ==> visited(k))
 // The final pass (a function literal that guards hashmap.Each with a recover for its own stop signal): while it runs
-// no produce has failed and err is nil; each visit produces one record; a failing produce stores the error in err and
-// leaves the pass.
+// no produce has failed; each visit produces one record; a failing produce leaves the pass (its error must then be
+// what Run returns: `flush`).
 //@ func (*SimpleGroupBy).Run$lit5
 //@   inline
-//@   ascend 1 invariant clean: err == nil && !produceFailed()
+//@   ascend 1 invariant clean: !produceFailed()
 //@   ascend 1 step row: len(OUT) == old(len(OUT)) + 1 && visited(lastkey())
 //@ func (*SimpleGroupBy).Run$lit3
 //@   loop 1 invariant keys: len(key) == len(g.keyExprs) && forall(j, 0, $k, same(key[j], evalVal(g.keyExprs[j], ctx)))
